@@ -1,5 +1,5 @@
 import LyModel.Diff.UOBridgeKLDec
-import LyModel.Diff.UOBridgeMKApply2
+import LyModel.Diff.UOBridgeMKDec
 /-!
 # C06 — user-ordered keyed LISTS inside the tree model: apply(A, diff(A, B)) = B   (Stage 2a)
 
@@ -159,6 +159,16 @@ theorem apply_diff_userord_flat_kl_multikey (S : Schema) (fx : Fixes) (s nk : Na
       normL S B' = normL S (MK.klForest s vb) :=
   apply_diff_mk hs.ctx fx va vb nda ndb hq
 
+/-- **The same, from the decidable hypothesis the check evaluates per generated case** (`flatMK`, driver op `uohyp`): for ALL
+trees `A`, `B` that consist of plain key-only instances of one user-ordered list with `nk ≥ 1` keys, identities duplicate-free,
+the key values in `B` quotable. -/
+theorem apply_diff_userord_flat_kl_multikey_dec (S : Schema) (fx : Fixes) (A B : List DNode) (s nk : Nat)
+    (h : flatMK S A B = some (s, nk)) :
+    ∃ B', apply S A (diffFromPtr S true A B fx) fx = .ok B' ∧ normL S B' = normL S B := by
+  obtain ⟨hs, va, vb, hA, hB, nda, ndb, hq⟩ := flatMK_spec h
+  rw [hA, hB]
+  exact apply_diff_userord_flat_kl_multikey S fx s nk hs va vb nda ndb hq
+
 /-- `list ul { key "k1 k2"; ordered-by user; leaf k1; leaf k2 }` -/
 def exK2 : Schema :=
   { modName := "uo4", nodes := [{ depth := 0, kind := .list, name := "ul", nkeys := 2, userord := true },
@@ -188,6 +198,9 @@ example : (diff exK2 true (MK.klForest 0 [k2 [97] [120], k2 [97] [121], k2 [98] 
       (fun n => (MK.keyOf n, (n.metas.map (·.2)).head?)) =
     [([[97], [121]], some Op.delete.bytes), ([[98], [120]], some Op.replace.bytes), ([[99, 39], [120]], some Op.create.bytes)] := by
   decide +kernel
+
+example : flatMK exK2 (MK.klForest 0 [k2 [97] [120], k2 [97] [121], k2 [98] [120]])
+    (MK.klForest 0 [k2 [98] [120], k2 [97] [120], k2 [99, 39] [120]]) = some (0, 2) := by decide +kernel
 
 end MultiKey
 
